@@ -11,7 +11,7 @@ PROPERTY = "C19"
 RULE = ("1-3 sample buffers per case, 1-4 frames per buffer: DF17 with correct parity, DF20/21 (any AP), DF4/5/11, plus DF17 with 1-3 flipped bits (must be "
         "absent); pulse-position modulation at 2 samples/us behind the 8 us preamble, frame amplitude A in [0.3,1.4] with +-10% per-pulse jitter clipped to "
         "that range, any start offset (both sample parities), gaps >= 240 samples and a >= 400-sample noise-only lead; every non-pulse sample is noise "
-        "bounded by n = min(rho * A_min, 0.19), rho in [0, 0.316) (every pulse >= 10 dB above every noise sample), shapes zero/constant/uniform/two-level; "
+        "bounded by n = min(rho * A_min, 0.19) with rho in [0, 0.316) drawn per buffer (every pulse >= 10 dB above every noise sample of its buffer), shapes zero/constant/uniform/two-level; "
         "reader created with object.__new__(RtlReader); consecutive _process_buffer() calls share the running noise floor. Oracle: the returned hex strings "
         "are exactly the admissible transmitted frames, in order, upper case, right length; every returned DF17 has reference CRC 0. "
         "non-trivial = >= 2 frames of different length, odd start offset, rho > 0.1, or a corrupted DF17 present")
@@ -68,11 +68,10 @@ def synth(buf, nlevel):
     return [s if s is not None else noise_sample(buf["shape"], nlevel, buf["nseed"], k) for k, s in enumerate(slots)]
 
 
-def min_amp(case):
+def min_amp(buf):
     m = 1.4
-    for buf in case["buffers"]:
-        for it in buf["items"]:
-            m = min(m, max(0.3, it["amp"] * 0.9))
+    for it in buf["items"]:
+        m = min(m, max(0.3, it["amp"] * 0.9))
     return m
 
 
@@ -108,7 +107,8 @@ def s_case(draw):
     for _ in range(draw(st.sampled_from([1, 1, 2, 3]))):
         bufs.append({"lead": draw(st.one_of(st.sampled_from([400, 401]), gen.uint(400, 900))),
                      "items": draw(st.lists(s_frame(), min_size=1, max_size=4)),
-                     "shape": draw(st.sampled_from(["zero", "constant", "uniform", "uniform", "two-level"])), "nseed": draw(gen.ubits(32))})
+                     "shape": draw(st.sampled_from(["zero", "constant", "uniform", "uniform", "two-level"])), "nseed": draw(gen.ubits(32)),
+                     "rho": draw(st.one_of(gen.ufloat(0.0, 0.316), gen.ufloat(0.2, 0.316), st.sampled_from([0.0, 0.0, 0.25, 0.3159])))})
     return {"buffers": bufs, "rho": draw(st.one_of(gen.ufloat(0.0, 0.316), gen.ufloat(0.2, 0.316), st.sampled_from([0.0, 0.25, 0.3159])))}
 
 
@@ -117,9 +117,10 @@ def chk_case(case, note):
     rd.signal_buffer = []
     rd.debug = False
     rd.noise_floor = 1e6
-    nlevel = min(case["rho"] * min_amp(case), 0.19)
     lens, odd, bad = set(), False, False
     for bi, buf in enumerate(case["buffers"]):
+        # every buffer has its own noise level: each pulse of the buffer is >= 10 dB above each of its noise samples
+        nlevel = min(buf.get("rho", case["rho"]) * min_amp(buf), 0.19)
         samples = synth(buf, nlevel)
         rd.signal_buffer = list(rd.signal_buffer) + samples
         r = call(rd._process_buffer)
@@ -142,11 +143,14 @@ def chk_case(case, note):
             bad = bad or not admissible(it["msg"])
             pos += 16 + len(it["msg"]) * 8 + it["gap"]
     note.cls("buffers%d" % len(case["buffers"]))
-    if case["rho"] > 0.2:
+    rhos = [b.get("rho", case["rho"]) for b in case["buffers"]]
+    if max(rhos) > 0.2:
         note.cls("noise-within-14dB")
+    if len(rhos) > 1 and max(rhos) - min(rhos) > 0.15:
+        note.cls("noise-level-changes-between-buffers")
     if bad:
         note.cls("corrupted-df17")
-    note.nt(len(lens) > 1 or odd or case["rho"] > 0.1 or bad)
+    note.nt(len(lens) > 1 or odd or max(rhos) > 0.1 or bad)
     return None
 
 
